@@ -1,6 +1,7 @@
 package harness
 
 import (
+	"io"
 	"bytes"
 	"context"
 	"fmt"
@@ -126,12 +127,13 @@ func c11Profile(concurrent bool) func(c *sim.RunCtx) {
 			Kind int // 0 put 1 get 2 find
 			Obj  int
 			Set  []int
+			Cons int // get: 0 ToByteSlice, 1 chunk reader read to the end (what ByteStream does)
 		}
 		var plans [][]mop
 		for ci := 0; ci < clients; ci++ {
 			var ops []mop
 			for i := 0; i < nops; i++ {
-				o := mop{Kind: t.Pick(3, 5, 3), Obj: t.Choose(len(objs))}
+				o := mop{Kind: t.Pick(3, 5, 3), Obj: t.Choose(len(objs)), Cons: t.Choose(2)}
 				if o.Kind == 2 {
 					k := 1 + t.Choose(3)
 					seen := map[int]bool{}
@@ -186,6 +188,17 @@ func c11Profile(concurrent bool) func(c *sim.RunCtx) {
 				return -1
 			}
 			A.StreamFault, B.StreamFault = sf, sf
+			// a Put that fails only after the last byte was consumed (commit failure)
+			cf := func(name string) func(d digest.Digest) error {
+				return func(d digest.Digest) error {
+					if faultRate > 0 && ft.Chance(faultRate, 1000) {
+						injected++
+						return status.Errorf(codes.Unavailable, "%s: injected commit failure of Put", name)
+					}
+					return nil
+				}
+			}
+			A.CommitFault, B.CommitFault = cf("replica-one"), cf("replica-two")
 			clk := sim.NewClock(s)
 			limAB, limBA := 1+int64(t.Choose(2)), 1+int64(t.Choose(2))
 			var ba blobstore.BlobAccess
@@ -220,7 +233,25 @@ func c11Profile(concurrent bool) func(c *sim.RunCtx) {
 					hasA, hasB := A.Has(ob.D), B.Has(ob.D)
 					gets++
 					firstIsA := gets%2 == 1
-					data, err := ba.Get(ctx, ob.D).ToByteSlice(1 << 20)
+					var data []byte
+					var err error
+					if o.Cons == 1 {
+						r := ba.Get(ctx, ob.D).ToChunkReader(0, 1+o.Obj%3)
+						for {
+							chunk, rerr := r.Read()
+							if rerr == io.EOF {
+								break
+							}
+							if rerr != nil {
+								err = rerr
+								break
+							}
+							data = append(data, chunk...)
+						}
+						r.Close()
+					} else {
+						data, err = ba.Get(ctx, ob.D).ToByteSlice(1 << 20)
+					}
 					faulted := injected > inj0
 					if err == nil {
 						if !bytes.Equal(data, ob.Data) {
@@ -232,7 +263,8 @@ func c11Profile(concurrent bool) func(c *sim.RunCtx) {
 							return
 						}
 						c.Count("probe_get_ok", 1)
-						if !concurrent && copying && !faulted {
+						// (also when faults were injected: a failed repair must fail the read)
+						if !concurrent && copying {
 							first := B
 							if firstIsA {
 								first = A
